@@ -145,7 +145,8 @@ def run_check(pid, tier, seed):
                 out = os.path.join(work, 'r%d.json' % i)
                 cmd = [sys.executable, '-m', 'vf.run', '--worker', module, check['name'], tier, str(seed),
                        json.dumps(ch), str(budget), out]
-                env = dict(os.environ, PYTHONPATH=ROOT, PYTHONHASHSEED='0')
+                env = dict(os.environ, PYTHONHASHSEED='0',
+                           PYTHONPATH=(os.environ['VERIF_SRC'] + ':' if os.environ.get('VERIF_SRC') else '') + ROOT)
                 try:
                     p = subprocess.run(cmd, cwd=ROOT, env=env, capture_output=True, text=True,
                                        timeout=budget * 1.5 + 120)
@@ -264,8 +265,9 @@ def run_check(pid, tier, seed):
         'wall_s': round(wall, 2),
         'violations': len(vio_lines),
     }
-    os.makedirs(os.path.join(ROOT, 'evidence'), exist_ok=True)
-    with open(os.path.join(ROOT, 'evidence', '%s.json' % pid), 'w') as f:
+    evdir = os.environ.get('VERIF_EVIDENCE_DIR') or os.path.join(ROOT, 'evidence')
+    os.makedirs(evdir, exist_ok=True)
+    with open(os.path.join(evdir, '%s.json' % pid), 'w') as f:
         json.dump(ev, f, indent=1, default=repr)
     for l in lines:
         print(l)
